@@ -91,6 +91,20 @@ class Leaf:
         return render_value(self.ev, self.value(), cz)
 
 
+class IntF64Leaf(Leaf):
+    """a double (or Float) operand that is an integer in lo..hi: value = (k as f64) for a symbolic k"""
+
+    def __init__(self, ev, name, lo, hi, variant=None):
+        self.ev = ev; self.name = name; self.variant = variant
+        self.k = z3.BitVec(name + '_k', 64)
+        self.var = z3.fpSignedToFP(RNE, self.k, F64)
+        self.constraint = z3.And(self.k >= lo, self.k <= hi)
+
+    def value(self):
+        if self.ev == 'number': return adt(sem.NUM, self.variant, [self.var])
+        return self.var
+
+
 LEAF_NODE = {'f64': 'Number', 'i64': 'Number', 'decimal': 'Number', 'complex': 'Number', 'number': 'Num'}
 
 
@@ -161,6 +175,12 @@ class EvalArm(Obligation):
         self.violation_kinds = violation_kinds       # None = all
         self.replay_cap = replay_cap
 
+    def outcome_of(self, p, e):
+        return impl_outcome(p, getattr(self, 'plain', False))
+
+    def render(self, v, cz):
+        return render_value(self.ev, v, cz)
+
     def setup(self, ctx, prog, e, st, runner):
         """returns (entry fn name, args, leaves, native_of(cz) -> (description, status, payload, micros))"""
         tree, sexpr = build_tree(st, self.ev, self.shape)
@@ -192,7 +212,7 @@ class EvalArm(Obligation):
             if out[0] == 'panic': return 'PANIC'
             if out[0] == 'limit': return 'TIMEOUT'
             if out[0] == 'err': return 'ERR'
-            return 'OK ' + render_value(self.ev, out[1], cz)
+            return 'OK ' + self.render(out[1], cz)
 
         def uf_apps(terms):
             """all applications of uninterpreted functions (arity > 0) in the given terms"""
@@ -300,8 +320,7 @@ class EvalArm(Obligation):
                 elif refcase[0] == 'ok':
                     if out[0] == 'err': bad = True
                     else:
-                        nv = parse_value(self.ev, payload)
-                        pv = refcase[1](nv)
+                        pv = refcase[1](out[1])          # predicted == native was just checked, so this is the native value
                         bad = not cz.bool(pv) if not isinstance(pv, bool) else not pv
                 elif refcase[0] in ('err', 'notok'): bad = out[0] == 'ok'
                 if bad:
@@ -309,14 +328,16 @@ class EvalArm(Obligation):
                 # not reproduced with real library functions: block this assignment of the leaves and retry
                 blk = []
                 for lf in leaves:
-                    vars_ = [lf.var] if not isinstance(lf.var, tuple) else [lf.var[1], lf.var[2]]
-                    for v_ in vars_: blk.append(v_ != m.eval(v_, model_completion=True))
+                    vars_ = [getattr(lf, 'k', lf.var)] if not isinstance(lf.var, tuple) else [lf.var[1], lf.var[2]]
+                    for v_ in vars_:
+                        if is_sym(v_): blk.append(v_ != m.eval(v_, model_completion=True))
+                if not blk: return None
                 blocked.append(z3.Or(blk))
             return None
 
         def on_path(p):
             res['paths'] += 1
-            out = impl_outcome(p, getattr(self, 'plain', False))
+            out = self.outcome_of(p, e)
             viol_here = False
             for cond, oc_ in ref:
                 if e.check(cond) != z3.sat: continue
@@ -398,6 +419,17 @@ _CTX = None
 
 
 def _worker(i):
+    """run one obligation in a thread with a large stack (path exploration recurses once per symbolic branch)"""
+    import threading
+    box = []
+    def target(): box.append(_worker_inner(i))
+    threading.stack_size(1 << 29)
+    sys.setrecursionlimit(200000)
+    t = threading.Thread(target=target); t.start(); t.join()
+    return box[0]
+
+
+def _worker_inner(i):
     ob = _OBS[i]
     try:
         return ob.run(_CTX)
